@@ -228,6 +228,21 @@ fn run_edit(init: &[(usize, usize)], ops: &[LOp]) -> (Vec<Viol>, String) {
 
 const EDIT_INITS: [&[(usize, usize)]; 6] = [&[], &[(0, 1)], &[(0, 1), (1, 1)], &[(0, 1), (1, 1), (0, 3)], &[(1, 8), (1, 1)], &[(2, 1), (0, 0), (2, 9)]];
 
+/// the first two steps of a history use every name and value; deeper steps the three names and two values of the
+/// documents (the state space of the breadth-first search grows with the menu to the power of the depth)
+fn edit_ops_at(step: usize) -> Vec<LOp> {
+    let (names, values) = if step < 2 { (EDIT_NAMES.len(), EDIT_VALUES.len()) } else { (3, 2) };
+    let mut v = vec![];
+    for n in 0..names {
+        for x in 0..values {
+            v.push(LOp::Set(n, x));
+            v.push(LOp::Insert(n, x));
+        }
+        v.push(LOp::Remove(n));
+    }
+    v
+}
+
 fn edit_ops() -> Vec<LOp> {
     let mut v = vec![];
     for n in 0..EDIT_NAMES.len() {
@@ -249,7 +264,7 @@ impl Prop for C08 {
         "model_checking"
     }
     fn rule(&self, _t: Tier) -> String {
-        "(a) print/parse: the full product of lossy documents over 3 names x 22 canonical values (empty, trailing spaces, Unicode, ':' '#' inside and leading, multi-line, empty first line, '.' line) for one paragraph of 1-3 fields, 2-3 paragraphs of 1 field and (thorough) 2 paragraphs x 2 fields; each is printed, re-read by both readers and checked for one blank line between paragraphs; every printable ASCII character except ':' inside, at the end and (except '-' '#') at the start of a field name x 4 values, printed, re-read and used with get/set/insert/remove; (b) edits: breadth-first search over get/set/insert/remove histories (5 names - the three, a twin in another letter case, an extension - x 4 values incl. the empty one and one starting on the next line) from 6 initial paragraphs, the state being the field vector itself (exact cache), against a Vec model; states = distinct field vectors, transitions = operations applied; non-trivial = every document / every distinct edit state".into()
+        "(a) print/parse: the full product of lossy documents over 3 names x 22 canonical values (empty, trailing spaces, Unicode, ':' '#' inside and leading, multi-line, empty first line, '.' line) for one paragraph of 1-3 fields, 2-3 paragraphs of 1 field and (thorough) 2 paragraphs x 2 fields; each is printed, re-read by both readers and checked for one blank line between paragraphs; every printable ASCII character except ':' inside, at the end and (except '-' '#') at the start of a field name x 4 values, printed, re-read and used with get/set/insert/remove; (b) edits: breadth-first search over get/set/insert/remove histories (5 names - the three, a twin in another letter case, an extension - x 4 values incl. the empty one and one starting on the next line, in the first two steps of a history; 3 names x 2 values in deeper steps) from 6 initial paragraphs, the state being the field vector itself (exact cache), against a Vec model; states = distinct field vectors, transitions = operations applied; non-trivial = every document / every distinct edit state".into()
     }
     fn bounds(&self, t: Tier) -> Value {
         json!({"names": NAMES8, "values": VALUES8, "edit_depth": t.pick(4, 6), "edit_initial_paragraphs": EDIT_INITS.len(), "edit_ops": edit_ops().len()})
@@ -300,7 +315,7 @@ impl Prop for C08 {
                 for _ in 0..depth {
                     let mut next = vec![];
                     for h in &frontier {
-                        for op in edit_ops() {
+                        for op in edit_ops_at(h.len()) {
                             let mut ops = h.clone();
                             ops.push(op);
                             let v = f(&C08Case::Edit { init: init.clone(), ops: ops.clone() });
